@@ -228,7 +228,9 @@ class Kernel:
         me = self.cur()
         if me is None or not self.active or self.killing:
             return
-        if self.stall_p > 0.0 and self.stalls < self.max_stalls and not me._nostall and self.decide_p(self.stall_p):
+        sp = getattr(me, '_stall_p', None)  # a slow thread (per-thread stall probability) or the run's stall rate
+        sp = self.stall_p if sp is None else sp
+        if sp > 0.0 and self.stalls < self.max_stalls and not me._nostall and self.decide_p(sp):
             d = STALL_DURATIONS[self.decide(len(STALL_DURATIONS))]
             self.stalls += 1
             self.stall_time += d
